@@ -488,9 +488,13 @@ func runCase(run *evid.Run, idx int) {
 
 	// build the stack bottom-up
 	var reg ociregistry.Interface = m0
-	var injected = errors.New("injected iterator failure")
+	// the member's failure is a plain error or one of the coded errors a registry gives for reasons other
+	// than absence (NAME_UNKNOWN is left out: the unifier reads it as "this member has no such repository")
+	injected := []error{errors.New("injected iterator failure"), ociregistry.ErrDenied, ociregistry.ErrUnsupported, ociregistry.ErrUnauthorized,
+		ociregistry.ErrTooManyRequests, fmt.Errorf("injected: %w", ociregistry.ErrDenied)}[(idx/3)%6]
 	if c.Fault == "member-iterator-fails" {
 		m0f := failingIter(m0, c.FaultAt, injected)
+		run.Distinct("member-iterator-fails-with/" + strings.SplitN(injected.Error(), ":", 2)[0])
 		reg = m0f
 		members[0] = m0f
 	}
